@@ -224,6 +224,8 @@ func exec(line string) zv.Out {
 		return execCert(f)
 	case "ct":
 		return execCT(f)
+	case "wrap":
+		return execWrap(f)
 	case "panic":
 		der := zv.UnHex(f[2])
 		msg := func() (m string) {
@@ -372,6 +374,93 @@ func execCert(f []string) zv.Out {
 		bad("ValidityPeriod")
 	}
 	return zv.Out{Go: out, Viol: strings.Join(viol, "; "), Tags: tags}
+}
+
+// ---------- input = prefix ‖ DER ‖ suffix: the whole input is the certificate, or it is rejected ----------
+
+// line: c06 wrap <prefix-hex|-> <der-hex> <suffix-hex|-> <class>
+// output: err | ok raw=<len(Raw)> md5=… sha1=… sha256=…
+// The oracle compares with the bytes FED IN (never with c.Raw alone): an accepted input has Raw == input and the three
+// certificate fingerprints are the hashes of the whole input; so two different accepted inputs never share a fingerprint.
+func execWrap(f []string) zv.Out {
+	pre, der, suf, class := zv.UnHex(f[2]), zv.UnHex(f[3]), zv.UnHex(f[4]), f[5]
+	in := x509rig.Cat(pre, der, suf)
+	tags := []string{"wrap=" + class}
+	c, err := x509.ParseCertificate(in)
+	if err != nil {
+		if len(pre) == 0 && len(suf) == 0 {
+			return zv.Out{Go: "err", Viol: "harness: the bare DER of a wrap line is rejected: " + err.Error(), Tags: tags}
+		}
+		return zv.Out{Go: "err", Tags: append(tags, "wrap-rejected")}
+	}
+	tags = append(tags, "wrap-accepted")
+	out := fmt.Sprintf("ok raw=%d md5=%s sha1=%s sha256=%s", len(c.Raw), hx(c.FingerprintMD5), hx(c.FingerprintSHA1), hx(c.FingerprintSHA256))
+	var viol []string
+	bad := func(format string, a ...any) { viol = append(viol, fmt.Sprintf(format, a...)) }
+	if !bytes.Equal(c.Raw, in) {
+		bad("accepted input of %d bytes (class %s) but Raw has %d bytes: Raw is not the input", len(in), class, len(c.Raw))
+	}
+	m5, s1, s2 := md5.Sum(in), sha1.Sum(in), sha256.Sum256(in)
+	for _, x := range []struct {
+		name      string
+		got, want []byte
+	}{{"FingerprintMD5", c.FingerprintMD5, m5[:]}, {"FingerprintSHA1", c.FingerprintSHA1, s1[:]}, {"FingerprintSHA256", c.FingerprintSHA256, s2[:]}} {
+		if !bytes.Equal(x.got, x.want) {
+			bad("%s = %x is not the hash of the accepted input (%x)", x.name, x.got, x.want)
+		}
+	}
+	// the other raw fields lie inside the input
+	for _, x := range []struct {
+		name string
+		b    []byte
+	}{{"RawTBSCertificate", c.RawTBSCertificate}, {"RawIssuer", c.RawIssuer}, {"RawSubject", c.RawSubject}, {"RawSubjectPublicKeyInfo", c.RawSubjectPublicKeyInfo}} {
+		if !bytes.Contains(in, x.b) {
+			bad("%s is not a sub-slice of the input", x.name)
+		}
+	}
+	return zv.Out{Go: out, Viol: strings.Join(viol, "; "), Tags: tags}
+}
+
+type affix struct {
+	class string
+	b     []byte
+}
+
+// suffixes: what a lenient reader might be tempted to tolerate after the certificate.
+func suffixes(r *zv.Rng, der, other []byte) []affix {
+	var out []affix
+	add := func(class string, bs ...string) {
+		for _, b := range bs {
+			out = append(out, affix{class, []byte(b)})
+		}
+	}
+	add("ws", "\n", "\r\n", " ", "\t", "\r", "\v", "\f")
+	add("ws-run", "\n\n", " \n", "\t \n", "\r\n\r\n", "  ", "\t\t", strings.Repeat(" ", 16), strings.Repeat("\n", 1+r.Intn(64)), " \t\r\n\v\f")
+	add("ws-unicode", "\u0085", "\u00a0", "\u2028", "\u3000", "\ufeff", "\x85", "\xa0")
+	add("ws-then-junk", "\n\x00", "\nA", " \x30\x00", "\r\n-----END CERTIFICATE-----\r\n", "\n\n\x01")
+	add("zero", "\x00", "\x00\x00", strings.Repeat("\x00", 8), strings.Repeat("\x00", 1+r.Intn(300)))
+	add("tlv", "\x30\x00", "\x05\x00", "\x04\x01\x00", "\x02\x01\x01", "\x30\x80\x00\x00", "\x0c\x01\n", string(der), string(other))
+	add("tlv-truncated", "\x30", "\x30\x82", "\x30\x03\x02\x01", string(der[:1+r.Intn(len(der)-1)]))
+	add("pem", "\n-----END CERTIFICATE-----\n", "-----END CERTIFICATE-----", "-----BEGIN CERTIFICATE-----\n", "=", "==\n", "A", "MIIB", "\n# comment\n")
+	add("byte", string([]byte{byte(r.U64())}), string([]byte{byte(r.U64()), byte(r.U64())}))
+	add("random", string(r.Bytes(1+r.Intn(40))))
+	return out
+}
+
+// prefixes: the same temptation at the front.
+func prefixes() []affix {
+	var out []affix
+	for _, b := range []string{"\n", " ", "\t", "\r\n", "\x00", "\ufeff", "\n\n", "-----BEGIN CERTIFICATE-----\n"} {
+		out = append(out, affix{"prefix", []byte(b)})
+	}
+	return out
+}
+
+func hexOrDash(b []byte) string {
+	if len(b) == 0 {
+		return "-"
+	}
+	return hex.EncodeToString(b)
 }
 
 // ---------- CT family: one canonical base, CT extensions inserted at every position ----------
@@ -754,6 +843,38 @@ func gen(g *zv.Gen) {
 		g.Emitf("c06 panic %s", hex.EncodeToString(p))
 	}
 	panicked = nil
+	// 4b. accepted DER with something after (or before) it: every suffix class on certificates of every source
+	// (the first fixtures, then random members of the pool: fixtures, created, structural variants); on three
+	// certificates every single trailing byte value and every two-byte whitespace pair.
+	nWrap := g.N(110, 2500)
+	for i := 0; i < nWrap; i++ {
+		der := pool[r.Intn(len(pool))]
+		if i < 10 && i < len(fx) {
+			der = fx[i]
+		}
+		other := pool[r.Intn(len(pool))]
+		g.Emitf("c06 wrap - %s - bare", hex.EncodeToString(der))
+		for _, a := range suffixes(r, der, other) {
+			g.Emitf("c06 wrap - %s %s %s", hex.EncodeToString(der), hexOrDash(a.b), a.class)
+		}
+		for _, a := range prefixes() {
+			g.Emitf("c06 wrap %s %s - %s", hexOrDash(a.b), hex.EncodeToString(der), a.class)
+			if i%8 == 0 {
+				g.Emitf("c06 wrap %s %s %s %s", hexOrDash(a.b), hex.EncodeToString(der), hexOrDash(a.b), a.class+"+suffix")
+			}
+		}
+		if i < 3 {
+			for b := 0; b < 256; b++ {
+				g.Emitf("c06 wrap - %s %02x byte-all", hex.EncodeToString(der), b)
+			}
+			ws := []byte(" \t\n\v\f\r")
+			for _, a := range ws {
+				for _, b := range ws {
+					g.Emitf("c06 wrap - %s %02x%02x ws-pair", hex.EncodeToString(der), a, b)
+				}
+			}
+		}
+	}
 	// 5. CT families: every canonical certificate we have (bounded), CT extensions at every position
 	nCT := g.N(60, 1500)
 	cnt := 0
@@ -783,5 +904,5 @@ func gen(g *zv.Gen) {
 
 func init() {
 	zv.Register(&zv.Prop{ID: "C06", Topic: "c06", Gen: gen, Exec: exec,
-		Rule: "every certificate shipped as a fixture in zcrypto (PEM blocks under x509/, data/, tls/, ct/), certificates created by x509.CreateCertificate over random templates x {RSA-1024/2048, P-224..P-521, Ed25519} x signature algorithms x self-signed/issued, structural variants that asn1.Unmarshal still accepts (trailing elements, version field absent/0/1/5, inconsistent [0] wrapper, unique ids, empty / non-SEQUENCE [3]), byte-level mutants that still parse, and for canonical certificates the CT families (poison / SCT list / both inserted at every position, or removed); a case is one distinct accepted DER; T3 = independent encoding/asn1 + cryptobyte walk, standard-library hashes and signature verification"})
+		Rule: "every certificate shipped as a fixture in zcrypto (PEM blocks under x509/, data/, tls/, ct/), certificates created by x509.CreateCertificate over random templates x {RSA-1024/2048, P-224..P-521, Ed25519} x signature algorithms x self-signed/issued, structural variants that asn1.Unmarshal still accepts (trailing elements, version field absent/0/1/5, inconsistent [0] wrapper, unique ids, empty / non-SEQUENCE [3]), byte-level mutants that still parse, and for canonical certificates the CT families (poison / SCT list / both inserted at every position, or removed); and for accepted certificates of every source the inputs prefix || DER || suffix (suffix classes: ASCII white space \\n \\r\\n space tab \\v \\f and runs / pairs of them, Unicode white space, white space followed by junk, zero bytes, a second TLV incl. a second certificate, truncated TLVs, PEM armour fragments and base64 characters, every single byte value, random bytes; prefixes: white space, zero, BOM, PEM header) with the oracle: accepted => Raw == the bytes fed in and the MD5/SHA-1/SHA-256 fingerprints are hashes of the whole input (the model rejects every non-empty suffix after a complete certificate); a case is one distinct accepted DER or one wrapped input; T3 = independent encoding/asn1 + cryptobyte walk, standard-library hashes and signature verification"})
 }
